@@ -1,8 +1,9 @@
 (* Extraction for the "c20" driver (C20 sampling points and parallel map).  ExtrOcamlBasic only:
    nat, positive, Z, Q stay the extracted inductive types. *)
-From Koala Require Import Model.Sampling Model.ParMap.
+From Koala Require Import Model.Sampling Model.ParMap Model.PhaseDiagram.
 Require Extraction.
 Require Import ExtrOcamlBasic.
 Extraction "model.ml"
   linspace_half grid nonsym_triples sym_triples on_simplex centre_in_grid
-  chunk_tasks chunk_tasks_by tag sort_by_index computation collect parmap parmap_default parmap_by parmap_checked koala_chunk_size n_chunks_exact serial transpose schedule_pool.
+  chunk_tasks chunk_tasks_by tag sort_by_index computation collect parmap parmap_default parmap_by parmap_checked koala_chunk_size n_chunks_exact serial transpose schedule_pool
+  koala_chunks evaluated_points cpd_scalar cpd_vector cpd_matrix skew plot_transform nonsym_nodes sym_nodes bary_to_cart permute_triple.
